@@ -27,8 +27,12 @@ func configs(thorough bool) []config {
 	// "dear" = 16 KiB and 4 KiB pages with the default allocator (the CPU device
 	// of a fresh driver owns 256K / 1M frames, a transition costs 8 / 17 ms).
 	type dq struct{ quick, deep int }
-	wide := map[string]dq{"A": {5, 7}, "B": {4, 5}, "C": {4, 5}, "D": {4, 7}, "E": {4, 6}, "F": {5, 8}, "G": {2, 3}}
-	dear := map[string]dq{"A": {4, 6}, "B": {3, 4}, "C": {3, 4}, "D": {4, 6}, "E": {4, 5}, "F": {5, 7}, "G": {2, 2}}
+	wide := map[string]dq{"A": {5, 7}, "B": {4, 5}, "C": {4, 5}, "D": {4, 7}, "E": {4, 6}, "F": {5, 8}, "G": {2, 3}, "H": {4, 6}}
+	dear := map[string]dq{"A": {4, 6}, "B": {3, 4}, "C": {3, 4}, "D": {4, 6}, "E": {4, 5}, "F": {5, 7}, "G": {2, 2}, "H": {3, 4}}
+	maxBufsH := 2
+	if thorough {
+		maxBufsH = 3
+	}
 	for _, v := range vars {
 		// sizes of the GPUs: the buddy allocator needs powers of two
 		g1 := []int{4}
@@ -70,15 +74,17 @@ func configs(thorough bool) []config {
 		add(config{Name: "two-processes", Log2Page: v.log2, Buddy: v.buddy, GPUPages: g2, Unified: []int{1, 2},
 			MaxProcs: 2, MaxCtx: 3, Depth: d("F"), AllocDevs: []int{1}, AllocSizes: []int{sz1Page, sz2Pages}, Free: true, GC: true,
 			RemapDevs: []int{2}, RemapRanges: "whole", MaxBufs: 3})
+		// H: the unified device as a TARGET of Remap and Distribute (the only way into
+		// Device.allocateMultipleUnifiedGPUPages): pages recorded on the unified id whose
+		// frames belong to a member GPU, then freed, re-homed again, and the GPUs re-filled
+		add(config{Name: "remap-unified", Log2Page: v.log2, Buddy: v.buddy, GPUPages: []int{4, 4}, Unified: []int{1, 2}, PreCtx: []int{0},
+			Depth: d("H"), AllocDevs: []int{1, 3}, AllocSizes: []int{sz1Page, sz3Pages}, Free: true,
+			RemapDevs: []int{3, 1}, RemapRanges: "all", GPULists: [][]int{{3, 1}, {2, 3}}, DistVariants: []int{distWhole}, MaxBufs: maxBufsH})
 		// G: everything at once, shallow
 		add(config{Name: "full-alphabet", Log2Page: v.log2, Buddy: v.buddy, GPUPages: g2, Unified: []int{1, 2}, PreCtx: []int{0, 1},
 			MaxProcs: 2, MaxCtx: 3, Depth: d("G"), AllocDevs: []int{0, 1, 2, 3}, AllocSizes: allSizes, UnifiedSizes: []int{sz1Page, szPagePlus1},
-			Free: true, GC: true, RemapDevs: []int{0, 1, 2}, RemapRanges: "all", GPULists: [][]int{{1, 2}, {2, 1}, {2}},
+			Free: true, GC: true, RemapDevs: []int{0, 1, 2, 3}, RemapRanges: "all", GPULists: [][]int{{1, 2}, {2, 1}, {2}, {3, 1}},
 			DistVariants: []int{distWhole, distFirstPage1}, MigrateGPUs: []int{1, 2}})
 	}
-	// outside the valid alphabet: Remap onto the unified device (no shipped
-	// caller does it); observations only
-	add(config{Name: "remap-onto-unified-device(informational)", Log2Page: 16, GPUPages: []int{5, 6}, Unified: []int{1, 2}, PreCtx: []int{0},
-		Depth: 3, AllocDevs: []int{1}, AllocSizes: []int{sz1Page, sz2Pages}, RemapDevs: []int{3}, RemapRanges: "all", MaxBufs: 2, Informational: true})
 	return out
 }
